@@ -87,7 +87,11 @@ Next ==
          m1 == MonApply(mon, e)
          m2 == IF gone = {} THEN m1 ELSE CloseAll(m1, conns)
      IN /\ mon' = m2 /\ tp' = t2
-        /\ IF e.ev = "begin" THEN TRUE ELSE Report(mon.viol, m2.viol, e) /\ Report(tp.viol, t2.viol, e)
+        \* whether "unknown slot" is the right answer depends on the table, which the reply monitor does not know:
+        \* that is decided above (owned-slot-answered-unknown-slot), not by RcMon's reply-without-answer
+        /\ LET decidedHere == IF e.ev = "got" /\ e.rep.t = "perr" /\ e.rep.txt = "unknown slot"
+                              THEN {v \in m2.viol : v[1] = "C03" /\ v[4] = "reply-without-answer"} ELSE {}
+           IN IF e.ev = "begin" THEN TRUE ELSE Report(mon.viol, m2.viol \ decidedHere, e) /\ Report(tp.viol, t2.viol, e)
         /\ IF l = Len(Trace) THEN PrintT(<<"DONE", l>>) ELSE TRUE
   /\ l' = l + 1
 =============================================================================
